@@ -276,7 +276,7 @@ CliOf(op, o, R) ==
   ELSE Res(FALSE, o, <<CliObj(IF Len(R.new) > 0 THEN R.new[1] ELSE R.o, o)>>, R.ret, R.j)
 \* operations that have a command-line twin in the harness (harness/heap_cli.go)
 CliOps == {"RemoveGapSites", "RemoveCharacterSites", "RemoveMajorityCharacterSites", "RemoveGapSeqs", "RemoveCharacterSeqs",
-           "ReverseComplement", "Sort", "Consensus", "DiffWithFirst", "ReplaceMatchChars", "Translate", "TranslateByReference",
+           "ReverseComplement", "ReverseComplementSequences", "Sort", "Consensus", "DiffWithFirst", "ReplaceMatchChars", "Translate", "TranslateByReference",
            "Deduplicate", "Compress", "Mask", "MaskPositions", "MaskOccurences", "MaskUnique", "SubAlign", "Replace",
            "ShuffleSequences", "Swap", "Recombine", "Mutate", "AddGaps", "Sample", "SampleSeqBag", "RandSubAlign",
            "Rename", "RenameRegexp", "CleanNames", "TrimNames", "TrimNamesAuto", "AppendSeqIdentifier", "TrimSequences",
